@@ -920,6 +920,18 @@ def oracle_c07(res):
     # which optional steps are not needed is decided here from the DECLARED need and the edges, not from the
     # scheduler's step._implied_need (which the code under test maintains incrementally)
     optional = unneeded_steps(g0)
+    # the cached column itself, when finalize starts (the scheduler's metadata update has run): an attached step has
+    # _implied_need = OPTIONAL exactly when the oracle's own computation from the declared need and the edges finds it
+    # unneeded (builds without targets only: no elevation)
+    if not res.get("has_targets"):
+        for n in g0["nodes"]:
+            if n["key"][0] == KIND["step"] and not n["det"] and n["key"][1] != "./plan.py":
+                cached_optional = n["need"] == 31
+                if cached_optional != (n["key"] in optional):
+                    out.append(("finalize:implied-need-stale:" + ("optional-but-needed" if cached_optional else "needed-but-unneeded"),
+                                f"step {n['key'][1]!r}: step._implied_need = {n['need']} (declared need {n.get('dneed')}) when finalize "
+                                f"starts, but from the declared needs and the edges it is "
+                                f"{'needed' if cached_optional else 'an optional step that no needed step consumes'}"))
     reverted = {b for a, b in g0["deps"] if a in optional}
     for n in g0["nodes"]:
         if n["key"][0] != KIND["file"] or n["fstate"] not in (16, 17, 18):
